@@ -298,6 +298,29 @@ def search(rep: C.Report, tier: str, broken):
         if not ok:
             rep.violation("an extended table does not end exactly at the requested bounds (the requested end point is out of range)", info,
                           finding_key="C18:extension-misses-requested-end")
+    # directed: the abscissae may be given as integers (python ints, integer lists and arrays): every entry, in range or not, must be what the
+    # same call with float-typed input returns, for every return dimension and mode pair that does not raise
+    for k in (1, 3):
+        coefI = [[1.3, -2.1, 0.7, 0.31], [0.25, 1.1, 0.0, -0.9], [2.2, 0.0, 1.7, 0.0], [1.5, 1.25, 1.125, 0.3]]   # non-integer values at integer points
+        clsI = make(k, coefI)
+        for ml, mu in [(a_, b_) for a_ in modes for b_ in modes if E.ERROR not in (a_, b_)]:
+            f = clsI(bUseAdaptiveInterpolation=False, initialInterpolationPointCount=10, returnValueCount=k)
+            f.badpts = []
+            f.newInterpolationTable(1.0, 4.0, 13)
+            f.setExtrapolationType(ml, mu)
+            for xi_ in (6, -1, 2, [0, 2, 3, 6], np.array([-2, 1, 4, 7]), np.array([[0, 2], [5, 9]], dtype=np.int64)):
+                xf_ = float(xi_) if np.ndim(xi_) == 0 else np.asarray(xi_, dtype=float)
+                rep.case(key=("integer-input", k, ml.name, mu.name, str(np.shape(xi_))))
+                rep.count("integer-typed inputs")
+                try:
+                    ri, rf = np.asarray(f(xi_), dtype=float), np.asarray(f(xf_), dtype=float)
+                    bad_ = ri.shape != rf.shape or not np.allclose(ri, rf, rtol=1e-12, atol=1e-12)
+                    det = {"integer_input": np.asarray(xi_).tolist(), "result": ri.tolist(), "result_for_float_input": rf.tolist()}
+                except Exception as ex:  # noqa: BLE001
+                    bad_, det = True, {"integer_input": np.asarray(xi_).tolist(), "error": f"{type(ex).__name__}: {str(ex)[:120]}"}
+                if bad_:
+                    rep.violation("evaluation at integer-typed abscissae differs from the evaluation at the same abscissae given as floats",
+                                  dict(det, returnValueCount=k, modes=[ml.name, mu.name], table=[1.0, 4.0, 13]), finding_key="C18:integer-input")
     # directed history for the mid-call adaptive update (Lean: Props.C18.finding_midcall_update)
     cls = make(1, [[1, 2, 0, 1]] * 4)
     f = cls(bUseAdaptiveInterpolation=True, initialInterpolationPointCount=10, returnValueCount=1)
